@@ -20,6 +20,9 @@ import LemoModel.Frame
     hs <pointOk> <macOk> <hex>     -> readHandshakeBuf outcome
     hsc <pointOk> <macOk> <chunks> -> same, segmented
     hsalloc <declared>             -> MiB requested after the 6-byte handshake prefix alone
+    closefacts <n>                 -> `ok` iff the fact table Close.closeSites has n rows, else `table-mismatch`
+    closefact <row>                -> `ok` iff <row> (stmt|function|guard) is a row of the table, else `table-mismatch`
+    closehammer <k>                -> outcome of k simultaneous closers under the table's locking discipline
 -/
 namespace Driver.C15
 open LemoModel.Frame Driver
@@ -93,6 +96,18 @@ def step (s : St) (w : List String) : St × String :=
     | some d =>
       let st := hsStepFixed (fun _ => false) (fun _ => false) s.cfg flat (header d)
       (s, s!"{st.out.show} mib={st.alloc / mib}")
+    | none => (s, "bad-op")
+  | ["closefacts", n] =>
+    match n.toNat? with
+    | some n => (s, if n = Close.closeSites.length then "ok" else "table-mismatch")
+    | none => (s, "bad-op")
+  | ["closefact", row] =>
+    (s, if (Close.closeSites.map Close.CloseSite.row).contains row then "ok" else "table-mismatch")
+  | ["closehammer", k] =>
+    match k.toNat? with
+    | some k =>
+      let r := Close.run Close.mutexOfTable Close.init (Close.roundRobin k)
+      (s, s!"panicked={r.panicked} closed={r.closed}")
     | none => (s, "bad-op")
   | _ => (s, "bad-op")
 
